@@ -1505,7 +1505,10 @@ class Server:
     @ConnectionConditions(ConnectionConditions.login_required)
     async def pasv(self, connection, rest):
         async def handler(reader, writer):
-            if connection.future.data_connection.done():
+            # a connection accepted while the session is being torn down
+            # would never be closed by anybody
+            session_ended = connection.command_connection.writer.is_closing()
+            if session_ended or connection.future.data_connection.done():
                 writer.close()
             else:
                 connection.data_connection = ThrottleStreamIO(
@@ -1552,7 +1555,10 @@ class Server:
     @ConnectionConditions(ConnectionConditions.login_required)
     async def epsv(self, connection, rest):
         async def handler(reader, writer):
-            if connection.future.data_connection.done():
+            # a connection accepted while the session is being torn down
+            # would never be closed by anybody
+            session_ended = connection.command_connection.writer.is_closing()
+            if session_ended or connection.future.data_connection.done():
                 writer.close()
             else:
                 connection.data_connection = ThrottleStreamIO(
